@@ -826,7 +826,7 @@ def heat_cases(spec, cell):
         raise RuntimeError("Heat1D refused: %s %r" % (err, spec))
     dx = ep / (N + 1)
     steps = int(T / (5 / 11 * dx ** 2))
-    dt = T / steps
+    dt = T / steps if steps else 0.0
     u = np.array(fl(tp.exactSolution))       # initial condition (function values)
     Dxx = (np.diag(-2 * np.ones(N)) + np.diag(np.ones(N - 1), -1) + np.diag(np.ones(N - 1), 1)) / dx ** 2
     for _ in range(steps):
@@ -1044,6 +1044,8 @@ def specs(ctx):
         for var in ["default", "source", "exact", "obsmap", "KL", "Step", "map"]:
             if not ctx.thorough and var not in ("default", "exact") and n not in (5,):
                 continue
+            if var == "obsmap" and n < 5:
+                continue        # observing a sub-grid goes through a cubic spline: needs >= 4 solution nodes (C18's branch)
             k += 1
             kw = {"dim": n, "endpoint": rng.choice([1, 2]), "SNR": rng.choice([200, 40]), "source": rng.choice(["one", "lin", "quad"])}
             xd = n
@@ -1065,13 +1067,15 @@ def specs(ctx):
         for var in ["default", "exact", "obsmap", "KL", "Step", "map", "time"]:
             if not ctx.thorough and var not in ("default", "exact") and n != 4:
                 continue
+            if var == "obsmap" and n < 4:
+                continue        # sub-grid observation = spline interpolation in space and time: needs >= 4 nodes / time levels
             k += 1
             kw = {"dim": n, "endpoint": rng.choice([1, 2]), "SNR": rng.choice([200, 40])}
             xd = n
             if var == "exact":
                 kw["exactSolution"] = dyvec(rng, n, 0, 8)
             elif var == "obsmap":
-                kw["observation_grid_map"] = "every2"
+                kw["observation_grid_map"] = "every2"; kw["endpoint"] = 1
             elif var == "KL":
                 kw["field_type"] = "KL"; kw["field_params"] = {"num_modes": n - 1}; xd = n - 1
             elif var == "Step":
@@ -1079,7 +1083,7 @@ def specs(ctx):
             elif var == "map":
                 kw["fmap"] = "affine"
             elif var == "time":
-                kw["max_time"] = rng.choice([0.05, 0.1])
+                kw["max_time"] = rng.choice([0.05, 0.1]); kw["endpoint"] = 1      # keeps at least one time step
             nobs = n if var != "obsmap" else len(range(0, n, 2))
             out.append(({"tp": "heat", "kw": kw, "z": zvec(rng, nobs, k), "x": dyvec(rng, xd)}, "Heat1D/%s" % var, "heat"))
     # ---------------- WangCubic ----------------
